@@ -1,6 +1,7 @@
 import Shuttle.Drive.C18
 import Shuttle.Drive.C01
 import Shuttle.Drive.C02
+import Shuttle.Drive.C05
 import Shuttle.Drive.C12
 import Shuttle.Drive.C13
 import Shuttle.Drive.C14
@@ -12,6 +13,7 @@ def dispatch (line : String) : String :=
   | some (.list [.atom "C18", req]) => Drive.C18.handle req
   | some (.list [.atom "C01", req]) => Drive.C01.handle req
   | some (.list [.atom "C02", req]) => Drive.C02.handle req
+  | some (.list [.atom "C05", req]) => Drive.C05.handle req
   | some (.list [.atom "C12", req]) => Drive.C12.handle req
   | some (.list [.atom "C13", req]) => Drive.C13.handle req
   | some (.list [.atom "C14", req]) => Drive.C14.handle req
